@@ -37,14 +37,62 @@ class _Exc(Exception):
 
 
 class SymX:
-    def __init__(self, repo, module, interesting, cls=None):
+    def __init__(self, repo, module, interesting, cls=None, terms=False):
         from .tokproto import ExcLattice
         self.repo, self.module, self.interesting, self.cls = repo, module, interesting, cls
+        self.cur_module = module
+        self.terms = terms          # term mode: non-constant values are expression terms over the parameters ($name)
         self.lat = ExcLattice(repo)
         self.paths = 0
 
     # ------------------------------------------------------------------ values
     def ev(self, e, env):
+        v = self.ev0(e, env)
+        if v is UNKNOWN and self.terms:
+            return self.term(e, env)
+        return v
+
+    def term(self, e, env):
+        """expression term over the parameters: ('t', text): the expression with every local name replaced by its
+        current value (itself a term or a constant) and every package-level function name qualified by its module"""
+        if isinstance(e, ast.Lambda):
+            return ("lam", e, dict(env))
+        from .inline import clone
+        me = self
+
+        class Sub(ast.NodeTransformer):
+            def visit_Name(self, n):
+                if n.id in env:
+                    return ast.Name(id=_atom(show(env[n.id])), ctx=ast.Load())
+                r = me.resolve_fn(n.id, env.get("$module", me.module))
+                if r is not None:
+                    return ast.Name(id=f"{r[0]}.{n.id}", ctx=ast.Load())
+                return n
+
+            def visit_Lambda(self, n):
+                return ast.Name(id="<lambda>", ctx=ast.Load())
+
+            def visit_comprehension(self, n):
+                return n
+        return ("t", ast.unparse(Sub().visit(clone(e))))
+
+    def resolve_fn(self, name, module):
+        """a name used in *module* that denotes a function of the package -> (module, FunctionDef) or None"""
+        m = self.repo.module(module)
+        if name in m.functions:
+            return module, m.functions[name]
+        if name in m.imports:
+            mod, orig = m.imports[name]
+            tgt = None
+            if mod in (self.repo.PKG, "."):
+                tgt = "__init__"
+            elif mod.startswith("." ) or mod.startswith(self.repo.PKG + "."):
+                tgt = mod.lstrip(".").split(".")[-1]
+            if tgt and tgt in self.repo.modules and orig in self.repo.module(tgt).functions:
+                return tgt, self.repo.module(tgt).functions[orig]
+        return None
+
+    def ev0(self, e, env):
         if isinstance(e, ast.Constant):
             return e.value
         if isinstance(e, ast.Name):
@@ -53,10 +101,10 @@ class SymX:
             return ("tuple",) + tuple(self.ev(x, env) for x in e.elts)
         if isinstance(e, ast.UnaryOp) and isinstance(e.op, ast.Not):
             v = self.ev(e.operand, env)
-            return UNKNOWN if v is UNKNOWN else (not v)
+            return UNKNOWN if (v is UNKNOWN or is_term(v)) else (not v)
         if isinstance(e, ast.Compare) and len(e.ops) == 1:
             a, b = self.ev(e.left, env), self.ev(e.comparators[0], env)
-            if a is UNKNOWN or b is UNKNOWN:
+            if a is UNKNOWN or b is UNKNOWN or is_term(a) or is_term(b):
                 return UNKNOWN
             op = e.ops[0]
             try:
@@ -66,7 +114,7 @@ class SymX:
                 return UNKNOWN
         if isinstance(e, ast.BoolOp):
             vals = [self.ev(v, env) for v in e.values]
-            if any(v is UNKNOWN for v in vals):
+            if any(v is UNKNOWN or is_term(v) for v in vals):
                 return UNKNOWN
             r = vals[0]
             for v in vals[1:]:
@@ -74,7 +122,7 @@ class SymX:
             return r
         if isinstance(e, ast.IfExp):
             t = self.ev(e.test, env)
-            if t is UNKNOWN:
+            if t is UNKNOWN or is_term(t):
                 return UNKNOWN
             return self.ev(e.body if t else e.orelse, env)
         return UNKNOWN
@@ -96,6 +144,12 @@ class SymX:
 
     def local_fn(self, call):
         f = call.func
+        if self.terms:
+            if isinstance(f, ast.Name) and f.id.startswith("_"):
+                r = self.resolve_fn(f.id, self.cur_module)
+                if r is not None:
+                    return r[1], False, r[0]
+            return None
         if isinstance(f, ast.Name) and f.id in self.repo.module(self.module).functions:
             return self.repo.module(self.module).functions[f.id], False
         if isinstance(f, ast.Attribute) and isinstance(f.value, ast.Name) and f.value.id == "self" and self.cls:
@@ -107,8 +161,12 @@ class SymX:
     # ------------------------------------------------------------------ execution: continuation-passing over statement lists
     def run(self, fn, args=None, depth=0):
         """-> list of Out"""
-        params = [a.arg for a in fn.args.args]
-        env = {p: UNKNOWN for p in params}
+        params = [a.arg for a in fn.args.args] + [a.arg for a in fn.args.kwonlyargs]
+        if fn.args.vararg:
+            params.append(fn.args.vararg.arg)
+        if fn.args.kwarg:
+            params.append(fn.args.kwarg.arg)
+        env = {p: (("t", "$" + p) if self.terms else UNKNOWN) for p in params}
         env.update(args or {})
         outs = []
         self.exec_block(list(fn.body), env, [], [], outs, lambda env2, ev2: outs.append(Out("return", None, ev2)), depth)
@@ -161,9 +219,10 @@ class SymX:
             return self.do_raise(cls, env, events, handlers, outs)
         if isinstance(s, ast.If):
             def branch(v, env2, ev2, s=s):
-                if v is UNKNOWN:
-                    self.exec_block(list(s.body) + rest, env2, ev2 + [("if", norm(s.test, 50), True)], handlers, outs, k, depth)
-                    self.exec_block(list(s.orelse) + rest, env2, ev2 + [("if", norm(s.test, 50), False)], handlers, outs, k, depth)
+                if v is UNKNOWN or is_term(v):
+                    txt = show(v) if is_term(v) else norm(s.test, 50)
+                    self.exec_block(list(s.body) + rest, env2, ev2 + [("if", txt, True)], handlers, outs, k, depth)
+                    self.exec_block(list(s.orelse) + rest, env2, ev2 + [("if", txt, False)], handlers, outs, k, depth)
                 elif v:
                     self.exec_block(list(s.body) + rest, env2, ev2, handlers, outs, k, depth)
                 else:
@@ -174,6 +233,11 @@ class SymX:
             inner_k = lambda env2, ev2: self.exec_block(list(s.orelse) + list(s.finalbody) + rest, env2, ev2, handlers, outs, k, depth)
             return self.exec_block(list(s.body), env, events, handlers + [frame], outs, inner_k, depth)
         if isinstance(s, (ast.With, ast.AsyncWith)):
+            if self.terms:
+                env = dict(env)
+                for it in s.items:
+                    if isinstance(it.optional_vars, ast.Name):
+                        env[it.optional_vars.id] = ("t", "_with_(" + show(self.term(it.context_expr, env)) + ")")
             return self.exec_block(list(s.body) + rest, env, events, handlers, outs, k, depth)
         if isinstance(s, (ast.For, ast.While, ast.AsyncFor)):
             # zero or one iteration, then everything the loop assigns is unknown
@@ -181,6 +245,10 @@ class SymX:
             for n in ast.walk(s):
                 if isinstance(n, ast.Name) and isinstance(n.ctx, ast.Store):
                     env3[n.id] = UNKNOWN
+            return nxt(env3, events)
+        if isinstance(s, ast.FunctionDef) and self.terms:
+            env3 = dict(env)
+            env3[s.name] = ("lam", s, env3)
             return nxt(env3, events)
         if isinstance(s, (ast.Pass, ast.Import, ast.ImportFrom, ast.Global, ast.Nonlocal, ast.Assert, ast.Delete, ast.FunctionDef,
                           ast.ClassDef, ast.AnnAssign)):
@@ -199,7 +267,8 @@ class SymX:
         while hs:
             fr = hs.pop()
             if "fn_return" in fr:
-                continue                      # function boundary: the exception propagates to the caller's frames
+                env = fr.get("caller_env", env)   # function boundary: the exception propagates to the caller's frames
+                continue
             t = fr["try"]
             for h in t.handlers:
                 names = None if h.type is None else [norm(x).split(".")[-1] for x in (h.type.elts if isinstance(h.type, ast.Tuple) else [h.type])]
@@ -232,9 +301,28 @@ class SymX:
                 out.append(n)
         return out
 
+    def closure_of(self, c, env):
+        f = c.func
+        if isinstance(f, ast.Name) and isinstance(env.get(f.id), tuple) and env[f.id][:1] == ("lam",):
+            return env[f.id]
+        return None
+
     def eval_calls(self, e, env, events, handlers, outs, k, depth):
         """evaluate expression e: interpret local helper calls, fork interesting calls; then k(value, env, events)"""
-        calls = [c for c in self.calls_in(e) if self.local_fn(c) is not None or self.interesting(c)]
+        self.cur_module = env.get("$module", self.module)
+        if self.terms:
+            # a conditional expression inside a larger expression: decide it, or fork on its test
+            ife = next((n for n in self._walk_noscope(e) if isinstance(n, ast.IfExp)), None)
+            if ife is not None and ife is not e:
+                def chosen(v, env2, ev2):
+                    if v is UNKNOWN or is_term(v):
+                        txt = show(v) if is_term(v) else norm(ife.test, 50)
+                        self.eval_calls(_swap(e, ife, ife.body), env2, ev2 + [("if", txt, True)], handlers, outs, k, depth)
+                        self.eval_calls(_swap(e, ife, ife.orelse), env2, ev2 + [("if", txt, False)], handlers, outs, k, depth)
+                    else:
+                        self.eval_calls(_swap(e, ife, ife.body if v else ife.orelse), env2, ev2, handlers, outs, k, depth)
+                return self.eval_calls(ife.test, env, events, handlers, outs, chosen, depth)
+        calls = [c for c in self.calls_in(e) if self.local_fn(c) is not None or self.interesting(c) or self.closure_of(c, env)]
         if not calls:
             return k(self.ev(e, env), env, events)
         c = calls[0]
@@ -247,12 +335,18 @@ class SymX:
             e2 = _swap(e, c, ast.Name(id=name, ctx=ast.Load()))
             return self.eval_calls(e2, env3, ev2, handlers, outs, k, depth)
         lf = self.local_fn(c)
-        if lf is not None and depth < 6:
-            fn, is_method = lf
+        clo = self.closure_of(c, env) if lf is None else None
+        if (lf is not None or clo is not None) and depth < 8:
+            if lf is not None:
+                fn, is_method = lf[0], lf[1]
+                base = {"$module": lf[2]} if len(lf) > 2 else {}
+            else:
+                fn, is_method, base = clo[1], False, dict(clo[2])
             params = [a.arg for a in fn.args.args]
             if is_method:
                 params = params[1:]
-            cenv = {p: UNKNOWN for p in params}
+            cenv = dict(base)
+            cenv.update({p: UNKNOWN for p in params})
             for p, a in zip(params, c.args):
                 cenv[p] = self.ev(a, env)
             for kw in c.keywords:
@@ -261,16 +355,67 @@ class SymX:
             for p, dflt in zip(params[len(params) - len(fn.args.defaults):], fn.args.defaults):
                 if cenv.get(p) is UNKNOWN and p not in [kw.arg for kw in c.keywords] and params.index(p) >= len(c.args):
                     cenv[p] = self.ev(dflt, {})
-            frame = {"fn_return": lambda v, _env, ev2: resume(v, env, ev2)}
+            if fn.args.kwarg and self.terms:
+                extra = [kw for kw in c.keywords if kw.arg is None or kw.arg not in params]
+                if len(extra) == 1 and extra[0].arg is None:
+                    cenv[fn.args.kwarg.arg] = self.ev(extra[0].value, env)      # **kwargs passed through unchanged
+                elif extra:
+                    cenv[fn.args.kwarg.arg] = ("t", "{" + ", ".join((repr(kw.arg) + ": " if kw.arg else "**") + show(self.ev(kw.value, env))
+                                                                      for kw in extra) + "}")
+                else:
+                    cenv[fn.args.kwarg.arg] = ("t", "{}")
+            frame = {"fn_return": lambda v, _env, ev2: resume(v, env, ev2), "caller_env": env}
+            if isinstance(fn, ast.Lambda):
+                return self.eval_calls(fn.body, cenv, events, handlers + [frame], outs, lambda v, _e, ev2: resume(v, env, ev2), depth + 1)
             return self.exec_block(list(fn.body), cenv, events + [("enter", fn.name)], handlers + [frame], outs,
                                    lambda _env, ev2: resume(None, env, ev2), depth + 1)
         # an interesting external call: returns normally, or raises each candidate class
         tag = norm(c.func, 60)
-        resume(UNKNOWN, env, events + [("ok", tag)])
+        val = self.term(c, env) if self.terms else UNKNOWN
+        resume(val, env, events + [("ok", tag)])
         for cls in self.candidate_classes(handlers):
             self.do_raise(cls, env, events + [("raises", tag, cls)], handlers, outs)
+
+    @staticmethod
+    def _walk_noscope(e):
+        todo = [e]
+        while todo:
+            n = todo.pop(0)
+            yield n
+            if isinstance(n, (ast.Lambda, ast.GeneratorExp, ast.ListComp, ast.DictComp, ast.SetComp)):
+                continue
+            todo.extend(ast.iter_child_nodes(n))
 
 
 def _swap(expr, old, new):
     from .inline import _swap as sw
     return sw(expr, old, new)
+
+
+def _atom(text):
+    """text usable as an operand: parenthesised when it has an operator at bracket depth 0"""
+    depth = 0
+    for ch in text:
+        if ch in "([{":
+            depth += 1
+        elif ch in ")]}":
+            depth -= 1
+        elif ch == " " and depth == 0:
+            return "(" + text + ")"
+    return text
+
+
+def is_term(v):
+    return isinstance(v, tuple) and v[:1] in (("t",), ("lam",))
+
+
+def show(v):
+    if isinstance(v, tuple) and v[:1] == ("t",):
+        return v[1]
+    if isinstance(v, tuple) and v[:1] == ("tuple",):
+        return "(" + ", ".join(show(x) for x in v[1:]) + ")"
+    if isinstance(v, tuple) and v[:1] == ("lam",):
+        return "<lambda>"
+    if v is UNKNOWN:
+        return "_unknown_"
+    return repr(v)
